@@ -746,6 +746,11 @@ pub fn run_property(ctx: &Ctx, pc: &PropertyCheck, only_sub: Option<&str>) -> i3
     // 2b. coverage-guided companions of the property-based sub-checks (corpus replay in every
     //     tier, libFuzzer campaign in the thorough tier)
     for spec in crate::props::guided_for(pc.id) {
+        // VERIF_NO_GUIDED: used by tools/seed_eval_iso.sh, whose harness copy is bound to a patched
+        // worktree while the fuzz crate is not
+        if std::env::var_os("VERIF_NO_GUIDED").is_some() {
+            break;
+        }
         let gname = format!("guided-{}", spec.sub);
         if only_sub.is_some_and(|o| o != gname) {
             continue;
